@@ -353,6 +353,19 @@ func (obj *Package) DefConst(name string, value Object, doc string) (vv *VarVal)
 		if vv.Const && ObjectEqual(vv.Val, value) {
 			return vv
 		}
+		if !vv.Const && Unbound == vv.Val && vv.Get == nil && vv.Set == nil &&
+			(vv.Pkg == obj || vv.Pkg == nil) && !obj.Locked {
+			// Exported before being defined or made unbound. The record
+			// and with it the export status is kept.
+			vv.Val = value
+			vv.Const = true
+			vv.Doc = doc
+			vv.Pkg = obj
+			obj.mu.Unlock()
+			unlock = false
+			callSetHooks(obj, name)
+			return vv
+		}
 		PackagePanic(NewScope(), 0, obj, "%s is a constant and thus can't be changed", name)
 	}
 	if obj.Locked {
